@@ -323,4 +323,65 @@ theorem parseDict_head (ns : Ns) (l : Layout) (hl : LayoutOK l) (es : List (Str 
         simp at hp; subst hp; exact hnd.1) (by omega)]
     rw [tokOfDict]; simp
 
+/-! ### the whole tree -/
+
+theorem ident_no_paren {f : Str} (h : Ident f) : ∀ c ∈ f, c ≠ '(' :=
+  fun c hc => word_ne (ident_word h c hc) (by decide)
+
+/-- `t.parse(token)` on the rendered text of a well-formed expression builds its token tree
+    (any layout, any sufficient fuel) -/
+theorem parseTok_render (ns : Ns) : ∀ e : Expr, WF e → TokIH ns e := by
+  intro e
+  induction e using Expr.ind with
+  | hint n =>
+    intro _ l fuel _ hf
+    obtain ⟨f, rfl⟩ : ∃ f, fuel = f + 1 := ⟨fuel - 1, by omega⟩
+    rw [renderExpr, tyOf, parseTok.eq_def]
+    simp only [pyInt_decimal, tokOf]; rfl
+  | hstr s =>
+    intro hw l fuel _ hf
+    obtain ⟨f, rfl⟩ : ∃ f, fuel = f + 1 := ⟨fuel - 1, by omega⟩
+    rw [WF] at hw
+    rw [renderExpr, tyOf, parseTok.eq_def]
+    simp only [parseStrTok_render (quote_cases l 0) s hw, tokOf]; rfl
+  | hvar name =>
+    intro _ l fuel _ hf
+    obtain ⟨f, rfl⟩ : ∃ f, fuel = f + 1 := ⟨fuel - 1, by omega⟩
+    rw [renderExpr, tyOf, parseTok.eq_def]
+    simp only [tokOf]
+  | hcall fn args ih =>
+    intro hw l fuel hl hf
+    obtain ⟨f, rfl⟩ : ∃ f, fuel = f + 1 := ⟨fuel - 1, by omega⟩
+    rw [WF] at hw
+    have hwa := (wfList_iff args).mp hw.2
+    rw [renderExpr] at hf ⊢
+    obtain ⟨h1, h2, h3⟩ := call_slices fn (renderArgs l 0 args) (ident_no_paren hw.1)
+    rw [tyOf, parseTok.eq_def]
+    simp only [h1, h2, h3]
+    rw [parseArgs_head ns l hl args hwa (fun e he => ih e he (hwa e he)) f (by
+      simp at hf; omega)]
+    simp only [tokOf]; rfl
+  | hlist xs ih =>
+    intro hw l fuel hl hf
+    obtain ⟨f, rfl⟩ : ∃ f, fuel = f + 1 := ⟨fuel - 1, by omega⟩
+    rw [WF] at hw
+    have hwa := (wfList_iff xs).mp hw
+    rw [renderExpr] at hf ⊢
+    rw [tyOf, parseTok.eq_def]
+    simp only [bracket_inner]
+    rw [parseList_head ns l hl xs hwa (fun e he => ih e he (hwa e he)) f (by
+      simp at hf; omega)]
+    simp only [tokOf]; rfl
+  | hdict kvs ih =>
+    intro hw l fuel hl hf
+    obtain ⟨f, rfl⟩ : ∃ f, fuel = f + 1 := ⟨fuel - 1, by omega⟩
+    rw [WF] at hw
+    have hwa := (wfDict_iff kvs).mp hw.1
+    rw [renderExpr] at hf ⊢
+    rw [tyOf, parseTok.eq_def]
+    simp only [bracket_inner]
+    rw [parseDict_head ns l hl kvs hwa (fun p hp => ih p hp (hwa p hp).2) hw.2 f (by
+      simp at hf; omega)]
+    simp only [tokOf]; rfl
+
 end Aw.Query
